@@ -40,7 +40,9 @@ CODES = {1: "the LP left in the solver by add_pfba/add_moma/add_room, or the boo
          6: "reported objective value differs from the specification's objective at the returned fluxes",
          7: "fluxes returned for `reactions=` are not the requested entries of the solution",
          9: "exact oracle certificate rejected (harness fault)"}
-THEOREMS = "C09_pfba_lp_equiv, C09_pfba_sound, C09_min_split_is_abs (coq/theories/Properties/C09.v)"
+THEOREMS = ("C09_min_split_is_abs, C09_pfba_lp_equiv, C09_pfba_sound, C09_abs_encoding, C09_moma_lp_equiv, "
+            "C09_check_milp_sound, C09_room_switch, C09_room_milp_equiv, C09_room_linear_equiv "
+            "(coq/theories/Properties/C09.v)")
 RULE = ("random stoichiometric networks (harness/gennet.py, 2-6 metabolites, 3-9 reactions, dyadic data) x knock-out "
         "state x fraction_of_optimum in {1, 3/4, 1/2, 0} x objective override x reactions subset x solver interface; "
         "non-trivial = the un-knocked-out network has an FBA optimum and the analysis was executed on both sides; "
